@@ -730,3 +730,155 @@ def _field_ty(f, adt, name):
         if fl['name'] == name:
             return fl['ty']
     return ''
+
+
+# ------------------------------------------------------------------------------------------------------------------------------
+# FIELD-RESET: a VLQ field ends only with the digit state cleared
+
+def rule_vlq_field_reset(ctx):
+    """every advance of the decoder's field counter leaves the shift position (and the accumulator) cleared"""
+    from .panics import local_cone
+    f = ctx.facts()
+    r = RuleResult('VLQ-FIELD-RESET', 'the reader of base64-VLQ fields moves on to the next field only with its digit state cleared: every '
+                                  'increment of the field counter is followed, before the next digit is read, by a reset of the shift '
+                                  'position to 0 (or is made only where the shift position was just tested to be 0), and likewise for '
+                                  'the accumulator: continuation digits of one field can never leak into the next field')
+    entry = [x for x in f.body_list if x.name == 'decode_mappings' and x.d.get('pub') and x.promoted is None]
+    if len(entry) != 1:
+        raise anchors.AnchorMissing('public fn decode_mappings: %d' % len(entry))
+    dec = [m for ms in local_cone(f, entry[0]).values() for m in ms
+           if m.name == 'next' and (m.d.get('impl_trait') or '').endswith('Iterator') and m.d['kind'] != 'Closure']
+    if len(dec) != 1:
+        raise anchors.AnchorMissing('decoder Iterator::next in the decode_mappings cone: %d' % len(dec))
+    root = dec[0]
+    dadt = root.d.get('impl_adt')
+    # the decoder's own bodies: next and the private helpers of the same type it calls
+    members = [root] + [m for ms in local_cone(f, root).values() for m in ms if m is not root and m.d.get('impl_adt') == dadt]
+
+    def state_field(pl):
+        """name of the decoder field a place denotes (the field itself, not an element of it)"""
+        prs = [x for x in pl['pr'] if x != '*']
+        if len(prs) == 1 and isinstance(prs[0], dict) and prs[0].get('o') == dadt and 'n' in prs[0]:
+            return prs[0]['n']
+        return None
+
+    def fields_in(e):
+        return {x[2] for x in walk(e) if isinstance(x, tuple) and x and x[0] == 'field' and len(x) > 3 and x[3] == dadt}
+
+    shift, acc, counter_incs = set(), set(), []
+    for m in members:
+        for pt, s in m.points():
+            if s['k'] != 'assign':
+                continue
+            rv = s['r']
+            if rv['k'] == 'bin' and rv['op'].startswith('Shl'):
+                shift |= fields_in(m.expr_of_operand(rv['b']))
+            fld = state_field(s['p'])
+            if fld is None:
+                continue
+            e = m.expr_of_operand(rv['o']) if rv['k'] == 'use' else m._expr_of_def(None, pt, 'assign', s, 0, ())
+            if any(isinstance(x, tuple) and x and x[0] == 'bin' and x[1].startswith('Shl') for x in walk(e)) and \
+                    any(isinstance(x, tuple) and x and x[0] == 'bin' and x[1] == 'BitOr' for x in walk(e)):
+                acc.add(fld)
+    shift -= acc
+    if len(shift) != 1:
+        raise anchors.AnchorMissing('shift-position field of the VLQ reader: %s' % sorted(shift))
+    S = next(iter(shift))
+    # the field counter: a decoder field that indexes an array field of the decoder and is incremented by the constant 1
+    for m in members:
+        for pt, s in m.points():
+            if s['k'] != 'assign':
+                continue
+            fld = state_field(s['p'])
+            if fld is None or fld == S or fld in acc:
+                continue
+            e = m._expr_of_def(None, pt, 'assign', s, 0, ())
+            inc = [x for x in walk(e) if isinstance(x, tuple) and x and x[0] == 'bin' and x[1].startswith('Add')
+                   and any(y and y[0] == 'const' and y[1] == 1 for y in (x[2], x[3]))
+                   and fld in (fields_in(x[2]) | fields_in(x[3]))]
+            if not inc:
+                continue
+            # is this field used as an index of an array field?
+            used_as_index = False
+            for m2 in members:
+                for pt2, s2 in m2.points():
+                    for pl in ([s2['p']] if s2['k'] == 'assign' else []):
+                        for x in pl['pr']:
+                            if isinstance(x, dict) and 'i' in x and fld in fields_in(m2.expr_of_local(x['i'])):
+                                used_as_index = True
+                    if s2['k'] == 'call' and (s2.get('callee') or {}).get('name') in ('get', 'get_mut', 'index', 'index_mut',
+                                                                                     'get_unchecked', 'get_unchecked_mut') \
+                            and len(s2['args']) == 2 and fld in fields_in(m2.expr_of_operand(s2['args'][1])):
+                        used_as_index = True
+            if used_as_index:
+                counter_incs.append((m, pt, s, fld))
+    if not counter_incs:
+        raise anchors.AnchorMissing('no increment of the field counter found in the VLQ reader')
+
+    def zero_guarded(m, pt, fld):
+        """is pt dominated by the edge `fld == 0` of a test of the field (no write in between is checked by construction: the
+        guard and the increment sit in one iteration, writes of the field are resets to 0 or digit steps after the guard)"""
+        dom = m.dom()
+        for d in dom.get(pt[0], set()):
+            t = m.term(d)
+            if t['k'] != 'switch' or t['d']['k'] not in ('copy', 'move'):
+                continue
+            e = m.expr_of_operand(t['d'])
+            good = None
+            if e and e[0] == 'bin' and e[1] in ('Eq', 'Ne'):
+                for a_, b_ in ((e[2], e[3]), (e[3], e[2])):
+                    if fld in fields_in(a_) and b_ and b_[0] == 'const' and b_[1] == 0 and not (fields_in(a_) - {fld}):
+                        good = [x[1] for x in t['targets'] if x[0] == 0] if e[1] == 'Ne' else \
+                               [x for x in [t['otherwise']] + [y[1] for y in t['targets'] if y[0] != 0]
+                                if x not in [y[1] for y in t['targets'] if y[0] == 0]]
+            elif e and e[0] == 'field' and len(e) > 3 and e[3] == dadt and e[2] == fld:
+                good = [x[1] for x in t['targets'] if x[0] == 0]          # switch on the field itself: the 0 arm
+            if not good:
+                continue
+            for g in good:
+                if (g == pt[0] or g in dom.get(pt[0], set())) and len(m.preds(g)) == 1:
+                    return True
+        return False
+
+    def reset_after(m, pt, fld):
+        """on every path from pt to the end of the iteration (the next read of a digit: a call of `next` on the byte iterator, or a
+        return) the field is assigned the constant 0"""
+        seen, work = set(), [(pt[0], pt[1] + 1)]
+        while work:
+            bb, i0 = work.pop()
+            if (bb, i0) in seen:
+                continue
+            seen.add((bb, i0))
+            hit = False
+            for i, s in enumerate(m.stmts(bb)):
+                if i < i0:
+                    continue
+                if s['k'] == 'assign' and state_field(s['p']) == fld and s['r']['k'] == 'use' and s['r']['o'].get('k') == 'const' \
+                        and s['r']['o'].get('int') == 0:
+                    hit = True
+                    break
+            if hit:
+                continue
+            t = m.term(bb)
+            if t['k'] == 'return':
+                return False
+            if t['k'] == 'call' and (t.get('callee') or {}).get('name') == 'next':
+                return False
+            for su in m.succs(bb):
+                if not m.is_cleanup(su):
+                    work.append((su, 0))
+        return True
+
+    for m, pt, s, fld in counter_incs:
+        for X, what in [(S, 'shift position')] + [(a, 'accumulator') for a in sorted(acc)]:
+            ok = reset_after(m, pt, X) or zero_guarded(m, pt, X) or (X != S and zero_guarded(m, pt, S))
+            r.site('%s: field counter `%s` advanced with the %s `%s` cleared' % (m.path, fld, what, X), s['s'], 'ok' if ok else 'violation')
+            if not ok:
+                r.violation('%s:%s' % (m.path, X), s['s'], m.path,
+                            'the field counter `%s` is advanced on a path that neither resets the %s `%s` to 0 before the next digit is '
+                            'read nor is taken only when it is 0: continuation digits already read for this field shift / add into the '
+                            'next field (a zero delta spelled with redundant continuation digits, e.g. "gA", is legal base64-VLQ)' % (
+                                fld, what, X))
+    r.floor = 2
+    r.check_floor()
+    return r
